@@ -85,11 +85,14 @@ def split_repeated(case, tag, event):
             a, b = int(op[3][1:]), int(op[4][1:])
             if a < len(verts) and b < len(verts):
                 key = frozenset([verts[a][:2], verts[b][:2]])
-                created = vs is not None and any(v[2] == "888000" for v in vs[len(verts):])
-                for (k2, c2) in seen:
-                    if k2 == key and c2:
+                new_vs = [v[:2] for v in vs[len(verts):] if v[2] == "888000"] if vs is not None else []
+                created = bool(new_vs)
+                for (k2, c2, on2) in seen:
+                    # the same pair again, or a segment between two vertices of an earlier split chain (its end points and its rounded split
+                    # vertices): the new segment runs along the rounded chain
+                    if c2 and (k2 == key or key <= on2):
                         return True
-                seen.append((key, created))
+                seen.append((key, created, frozenset(list(key) + new_vs)))
         if vs is not None:
             verts = vs
     return False
@@ -164,7 +167,8 @@ def f32_underflow_line_iterator(case, tag, event):
     """f32 triangulations whose coordinate differences are so small that their products underflow in f32 arithmetic (|x| < 2^-63):
     the line iterator's inexact projections become 0 and it does not advance (can_add_constraint / add_constraint / bulk_load_cdt
     / LineIntersectionIterator never return)"""
-    if tag != "hang" or case.scalar != "f32":
+    endless = tag == "hang" or (tag == "panic" and event is not None and "line_iterator_yields_without_end" in event)   # the harness stops an endless iterator itself
+    if not endless or case.scalar != "f32":
         return False
     cs = [c for c in _all_coords(case) if c > 0]
     return bool(cs) and max(cs) < 2.0 ** -63
@@ -196,7 +200,15 @@ def split_coarse_rounding(case, tag, event):
     placed at the rounded intersection, and the piece from there to the next vertex then runs exactly through, or on the wrong side of, an
     existing vertex that was clear of the exact segment: a face of zero or negative area (geo), later debug assertions
     `is_ordered_ccw` in legalize_edge (panic), non-Delaunay free edges next to it (cdtlocal)."""
-    if not any(o.split()[0] == "split" for o in case.ops) or not _coarse(case):
+    if not any(o.split()[0] == "split" for o in case.ops):
+        return False
+    coarse = _coarse(case)
+    # the same happens at any scale when the rounded split vertex is nearly collinear with existing vertices (a face of relative area ~1e-14 is
+    # inverted by the rounding): the debug assertion in a `split`, and inverted faces with a split-created corner, are accepted without the
+    # global coarseness condition; the verdicts without further evidence (dropped pieces) keep it
+    if tag == "panic" and event is not None and "is_ordered_ccw" in event and case.ops[-1].split()[0] == "split":
+        return True
+    if tag in ("split", "segspec", "noncross", "ncons", "panic") and not coarse:
         return False
     if tag == "panic":
         # (M8) "Failed to locate position": point location of a LATER operation walks into the inverted face left by an earlier split
